@@ -1,20 +1,31 @@
 import CpModel.Proto
 import CpModel.Cache
 import CpModel.CacheConc
+import CpModel.CacheHdr
 /-!
   Driver for C15 (caching tool).  One history per line, space-separated fields:
 
-    C:<delay>:<maxobjects>:<maxobj_size>:<maxsize>      first field: cache configuration
+    C:<delay>:<maxobjects>:<maxobj_size>:<maxsize>[:<secs>:<force 0|1>:<http11 0|1>]
+                                                        first field: cache configuration [+ tools.expires]
     T<n>                                                clock advances by n ticks (4 ticks = 1 s)
     S                                                   one pass of expire_cache
-    R:<method>:<path>:<qs>:<hdrs>:<pragma>:<cc>:<vary>:<size>:<flags>
-        strings are hex of their latin-1 bytes (`-` = empty string); lists are comma-joined
-        (`_` = empty list); hdrs items are `name=value`; flags: bit0 = response Cache-Control
-        no-store, bit1 = response Pragma no-cache, bit2 = response.stream, bit3 = handler / body
-        iterator raises, bit4 = client abandons the (streamed) body.
+    R:<method>:<path>:<qs>:<hdrs>:<resp Cache-Control>:<resp Pragma>:<resp Vary>:<resp Last-Modified>:<size>:<flags>
+        (flags bit3 = the handler sets ETag, bit4 = it sets Expires)
+        strings are hex of their latin-1 bytes (`-` = empty string = header absent); hdrs = ALL request
+        headers as sent, `name=value` items comma-joined (`_` = none), names in any case (folded here by
+        `title`, as `process_headers` does); the header VALUES are raw: tokenisation is the model's
+        (`CpModel.CacheHdr.parseReq / parsePlan`); flags: bit0 = response.stream, bit1 = handler / body
+        iterator raises, bit2 = client abandons the (streamed) body.
 
-  Output: one token per op (`H<gen>.<age>` hit, `M<gen>.<cacheable>` handler ran, `E400`, `-` for
-  T / S) followed by `|cur=<cursize> vals=<stored responses> uris=<len(store)>`, followed by
+  Function-level lines (each model function of `CpModel.CacheHdr` against the live function):
+    HV:<value>                       element values of a header value, comma-joined hex (`_` = none)
+    TI:<s>  /  ST:<s>                str.title() / str.strip()
+    VS:<method>:<ims>:<ius>:<lastmod>   validate_since on a hit: `serve` | `304` | `412`
+    EX:<secs>:<force>:<http11>:<bits>   expires tool: `<pragma><cache-control>:<past|+secs|none>`
+                                     bits = etag, last-modified, age, expires, pragma, cache-control present
+
+  Output: one token per op (`H<gen>.<age>` served from the cache, `N<gen>.<age>` 304 from the cache,
+  `P<gen>` 412 from the cache, `M<gen>.<cacheable>` handler ran, `E400`, `-` for T / S) followed by `|cur=<cursize> vals=<stored responses> uris=<len(store)>`, followed by
   ` seq=ok` when the interleaving model (`CpModel.CacheConc`) run under the sequential schedule
   (every request alone, every sweep a whole pass) gives the same tokens and totals, else
   ` seq=DIFF:<its line>`.
@@ -47,35 +58,45 @@ def pair? (s : String) : Option (Str × Str) :=
 def hdrs? (s : String) : Option (List (Str × Str)) :=
   if s == "_" then some [] else (s.splitOn ",").mapM pair?
 
-def parseCfg (s : String) : Option Cfg :=
+def parseCfg (s : String) : Option (Cfg × Option CacheHdr.ExpCfg) :=
   match s.splitOn ":" with
   | ["C", d, mo, mos, ms] => do
-    pure { delay := ← d.toNat?, maxobjects := ← mo.toNat?, maxobjSize := ← mos.toNat?, maxsize := ← ms.toNat? }
+    pure ({ delay := ← d.toNat?, maxobjects := ← mo.toNat?, maxobjSize := ← mos.toNat?, maxsize := ← ms.toNat? }, none)
+  | ["C", d, mo, mos, ms, secs, force, h11] => do
+    pure ({ delay := ← d.toNat?, maxobjects := ← mo.toNat?, maxobjSize := ← mos.toNat?, maxsize := ← ms.toNat? },
+          some { secs := ← secs.toInt?, force := force == "1", http11 := h11 == "1" })
   | _ => none
 
-def parseOp (s : String) : Option Op :=
+def parseOp (x : Option CacheHdr.ExpCfg) (s : String) : Option Op :=
   if s == "S" then some .sweep
   else if s.startsWith "T" then (s.drop 1).toString.toNat?.map .tick
   else match s.splitOn ":" with
-    | ["R", m, pa, qs, h, pr, cc, vary, size, flags] => do
+    | ["R", m, pa, qs, h, rcc, rpr, vary, lm, size, flags] => do
       let fl ← flags.toNat?
       if fl > 31 then none
-      let r : Req := { method := ← str? m, uri := uriKey (← str? pa) (← str? qs), hdrs := ← hdrs? h, pragma := ← list? pr, cc := ← list? cc }
-      let p : Plan := { vary := ← list? vary, size := ← size.toNat?, noStore := fl % 2 == 1, pragmaNoCache := fl / 2 % 2 == 1, stream := fl / 4 % 2 == 1, bodyOk := fl / 8 % 2 == 0, drained := fl / 16 % 2 == 0 }
-      pure (.req r p)
+      let hs ← hdrs? h
+      let rr : CacheHdr.RawReq := { method := ← str? m, uri := uriKey (← str? pa) (← str? qs),
+                                    hdrs := CacheHdr.intake hs }
+      let rp : CacheHdr.RawPlan := { vary := ← str? vary, cacheControl := ← str? rcc, pragma := ← str? rpr,
+                                     lastMod := ← str? lm, size := ← size.toNat?, stream := fl % 2 == 1,
+                                     bodyOk := fl / 2 % 2 == 0, drained := fl / 4 % 2 == 0,
+                                     etag := fl / 8 % 2 == 1, expiresHdr := fl / 16 % 2 == 1 }
+      pure (.req (CacheHdr.parseReq rr) (CacheHdr.parsePlan (CacheHdr.afterTools x rp)))
     | _ => none
 
-def showOut : Option Ev → String
-  | none => "-"
-  | some e =>
-    match e.out with
-    | .hit g a => s!"H{g}.{a}"
-    | .miss g c => s!"M{g}.{if c then 1 else 0}"
-    | .bad400 => "E400"
+def showFinal : Final → String
+  | .served g a => s!"H{g}.{a}"
+  | .notModified g a => s!"N{g}.{a}"
+  | .precond g => s!"P{g}"
+  | .handler g c => s!"M{g}.{if c then 1 else 0}"
+  | .bad400 => "E400"
 
-def runAll (cfg : Cfg) : World → List Op → List String → World × List String
-  | w, [], acc => (w, acc.reverse)
-  | w, op :: ops, acc => runAll cfg (step cfg w op).1 ops (showOut (step cfg w op).2 :: acc)
+def runAll (cfg : Cfg) : World → List Ev → List Op → List String → World × List String
+  | w, _, [], acc => (w, acc.reverse)
+  | w, L, op :: ops, acc =>
+    match (step cfg w op).2 with
+    | some e => runAll cfg (step cfg w op).1 (L ++ [e]) ops (showFinal (finalise L e) :: acc)
+    | none => runAll cfg (step cfg w op).1 L ops ("-" :: acc)
 
 /-! ### the interleaving model -/
 section conc
@@ -85,12 +106,21 @@ def hexStr (s : Str) : String := Proto.hex (s.map fun c => UInt8.ofNat c.toNat)
 
 def hexKey (k : List Str) : String := if k.isEmpty then "_" else ".".intercalate (k.map hexStr)
 
-def showCOut : COut → String
-  | .hit v a => s!"H{v.gen}.{a}"
+/-- the answer of a finished thread: on a hit, `validate_since` against the producer's Last-Modified
+    (looked up in the log by generation number) -/
+def showCOut (log : List Run) (r : Req) : COut → String
+  | .hit v a =>
+    match log.find? (fun x => x.gen == v.gen) with
+    | none => s!"H{v.gen}.{a}"
+    | some x =>
+      match validateSince r.method r.ims r.ius x.p.lastMod with
+      | .serve => s!"H{v.gen}.{a}"
+      | .notModified => s!"N{v.gen}.{a}"
+      | .precondFailed => s!"P{v.gen}"
   | .miss g c => s!"M{g}.{if c then 1 else 0}"
   | .bad400 => "E400"
 
-def pcLabel : Pc → String
+def pcLabel (log : List Run) (r : Req) : Pc → String
   | .start => "start"
   | .inval => "store.pop"
   | .sGet => "store.get"
@@ -112,7 +142,7 @@ def pcLabel : Pc → String
   | .pERes _ _ _ _ => "ev.result="
   | .pESet _ _ _ => "ev.set"
   | .pCurW _ _ => "cur.set"
-  | .done o => showCOut o
+  | .done o => showCOut log r o
 
 def xpLabel : XPc → String
   | .idle => "sleep"
@@ -139,7 +169,7 @@ def snap (s : St) : String :=
   let ex := ",".intercalate (s.exps.map fun p => s!"{p.1}>{p.2}")
   let bk := ";".intercalate ((idx s.buckets).map fun p => s!"{p.1}:" ++
     "+".intercalate (p.2.map fun e => s!"{e.size}/{hexStr e.uri}/{hexKey e.key}"))
-  let th := ",".intercalate (s.thr.map fun t => pcLabel t.pc)
+  let th := ",".intercalate (s.thr.map fun t => pcLabel s.log t.r t.pc)
   s!"st[{st}]uc[{uc}]ev[{ev}]ex[{ex}]bk[{bk}]cur={s.cursize};th[{th}]xp={xpLabel s.xp}"
 
 def parseCCfg (s : String) : Option CCfg :=
@@ -155,7 +185,7 @@ def parseAct (s : String) : Option Act :=
   else if s.startsWith "t" then (s.drop 1).toString.toNat?.map fun j => .thr j false
   else if s.startsWith "w" then (s.drop 1).toString.toNat?.map fun j => .thr j true
   else if s.startsWith "N:" then
-    match parseOp ("R:" ++ (s.drop 2).toString) with
+    match parseOp none ("R:" ++ (s.drop 2).toString) with
     | some (.req r p) => some (.spawn r p)
     | _ => none
   else none
@@ -172,29 +202,56 @@ def seqLine (cfg : Cfg) (ops : List Op) : String :=
     | op :: ops, acc =>
       let s' := seqStep c s op
       match op with
-      | .req _ _ => go s' ops ((match s'.thr.getLast? with | some t => pcLabel t.pc | none => "?") :: acc)
+      | .req _ _ => go s' ops ((match s'.thr.getLast? with | some t => pcLabel s'.log t.r t.pc | none => "?") :: acc)
       | _ => go s' ops ("-" :: acc)
   let (s, outs) := go {} ops []
   " ".intercalate outs ++ s!" |cur={s.cursize} vals={CacheConc.countVals s} uris={s.store.length}"
 
 end conc
 
+def joinHex (l : List Str) : String := if l.isEmpty then "_" else ",".intercalate (l.map hexStr)
+
+def bit (n k : Nat) : Bool := n / 2 ^ k % 2 == 1
+
+def fnLine (c : String) : Option String :=
+  match c.splitOn ":" with
+  | ["HV", v] => do pure (joinHex (CacheHdr.values (← str? v)))
+  | ["TI", v] => do pure (hexStr (title (← str? v)))
+  | ["ST", v] => do pure (hexStr (CacheHdr.strip (← str? v)))
+  | ["VS", m, ims, ius, lm] => do
+    pure (match validateSince (← str? m) (← str? ims) (← str? ius) (← str? lm) with
+          | .serve => "serve" | .notModified => "304" | .precondFailed => "412")
+  | ["EX", secs, force, h11, bits] => do
+    let b ← bits.toNat?
+    let sc ← secs.toInt?
+    let e := CacheHdr.expiresTool sc (force == "1") (h11 == "1")
+      ⟨bit b 0, bit b 1, bit b 2, bit b 3, bit b 4, bit b 5⟩
+    let d := match e.setExpires with
+      | none => "none" | some .past => "past" | some (.at n) => s!"+{n}"
+    pure s!"{if e.setPragma then 1 else 0}{if e.setCacheControl then 1 else 0}:{d}"
+  | _ => none
+
 def step (line : String) : String :=
   match Proto.fields line with
   | [] => "bad-op"
   | c :: rest =>
-    if c.startsWith "K:" then
+    if c.startsWith "HV:" || c.startsWith "TI:" || c.startsWith "ST:" || c.startsWith "VS:" || c.startsWith "EX:" then
+      (fnLine c).getD "bad-op"
+    else if c.startsWith "K:" then
       match parseCCfg c, rest.mapM parseAct with
       | some cfg, some acts => " ".intercalate (runSnaps cfg {} acts [])
       | _, _ => "bad-op"
     else
-    match parseCfg c, rest.mapM parseOp with
-    | some cfg, some ops =>
-      let (w, outs) := runAll cfg {} ops []
+    match parseCfg c with
+    | none => "bad-op"
+    | some (cfg, x) =>
+    match rest.mapM (parseOp x) with
+    | none => "bad-op"
+    | some ops =>
+      let (w, outs) := runAll cfg {} [] ops []
       let l := " ".intercalate outs ++ s!" |cur={w.cache.cursize} vals={countVals w.cache.store} uris={w.cache.store.length}"
       let l2 := seqLine cfg ops
       if l == l2 then l ++ " seq=ok" else l ++ " seq=DIFF:" ++ l2.replace " " "_"
-    | _, _ => "bad-op"
 
 end Drv.C15
 
